@@ -51,6 +51,24 @@ def acct_fields(pv, struct_key):
     return sorted({n for (o, n) in pv.fields if o == struct_key})
 
 
+def ret_aliases(f):
+    """locals whose whole value is moved into the return place (directly or through other such locals) - e.g. the return local of a
+    spliced helper whose result the function returns"""
+    alias = {0}
+    changed = True
+    while changed:
+        changed = False
+        for bb in f.blocks:
+            for s in bb["s"]:
+                d, v = s.get("d"), s.get("v")
+                if d and v and d["l"] in alias and not d.get("p") and v["r"] == "use":
+                    p = op_place(v["a"][0])
+                    if p is not None and not p.get("p") and p["l"] not in alias and not (1 <= p["l"] <= f.argc):
+                        alias.add(p["l"])
+                        changed = True
+    return alias
+
+
 def loc_of(f, block):
     return f.bloc(block)
 
@@ -339,8 +357,90 @@ _PATH = None     # (fn, [blocks]) while bool_paths evaluates one concrete path: 
 ASSOCIATIVE = {"add", "mul", "checked_add", "checked_mul", "min", "max", "bitand", "bitor"}
 
 
+def _operand_ty_kind(f, o):
+    k = o.get("k")
+    try:
+        if k is not None:
+            return (f.ty(k["ty"]) if "ty" in k else {}).get("k")
+        p = op_place(o)
+        if p is None:
+            return None
+        return (f.ty(p["t"]) if (p.get("p") and "t" in p) else f.local_ty(p["l"])).get("k")
+    except Exception:
+        return None
+
+
+def call_tree(f, t, nm, args):
+    """tree of a call terminator: `I80F48::from_num(x)` is a lossless value conversion when x is an integer (the same value as
+    `I80F48::from(x)`, which like into() never reaches a tree) and, for a float literal, the fixed-point constant it denotes
+    (from_num(1.0) == I80F48::ONE); everything else is name(args)."""
+    if nm == "from_num" and len(args) == 1 and len(t["args"]) == 1:
+        tk = _operand_ty_kind(f, t["args"][0])
+        if tk in ("int", "uint"):
+            return args[0]
+        if tk == "float" and re.fullmatch(r"\d+", args[0]):
+            import struct
+            bits = int(args[0])
+            try:
+                x = struct.unpack("<d", struct.pack("<Q", bits))[0] if bits >= (1 << 32) or bits == 0 else struct.unpack("<f", struct.pack("<I", bits))[0]
+                sc = x * (1 << 48)
+                if sc == int(sc):
+                    return str(int(sc))
+            except Exception:
+                pass
+    return mk_call(nm, args)
+
+
+_WRAP = ("Result::Ok{", "Option::Some{", "ControlFlow::Continue{")
+
+
+def _unwrap_arg(a):
+    """an operand that is a freshly built Ok(x) / Some(x) / Continue(x) was necessarily unwrapped (`?`, match, unwrap) before it could
+    be used as an operand: as an argument, Ok{x} is x (also inside a phi).  The outermost return position keeps its wrapper."""
+    for w in _WRAP:
+        if a.startswith(w) and a.endswith("}"):
+            inner = a[len(w):-1]
+            d = 0
+            ok = True
+            for ch in inner:
+                if ch in "({":
+                    d += 1
+                elif ch in ")}":
+                    d -= 1
+                    if d < 0:
+                        ok = False
+                        break
+                elif ch == "," and d == 0:
+                    ok = False
+                    break
+            if ok and d == 0:
+                return _unwrap_arg(inner)
+    if a.startswith("phi(") and a.endswith(")"):
+        sc = split_call("x(" + a[4:-1].replace("|", ",") + ")") if "|" in a else None
+        # split the alternatives at top-level bars
+        parts, cur, d = [], "", 0
+        for ch in a[4:-1]:
+            if ch in "({":
+                d += 1
+            elif ch in ")}":
+                d -= 1
+            if ch == "|" and d == 0:
+                parts.append(cur)
+                cur = ""
+            else:
+                cur += ch
+        parts.append(cur)
+        if d == 0 and len(parts) > 1:
+            un = sorted({_unwrap_arg(x) for x in parts})
+            return un[0] if len(un) == 1 else "phi(%s)" % "|".join(un)
+    return a
+
+
 def mk_call(nm, args):
     """name(args) with commutative arguments sorted and associative nests flattened"""
+    args = [_unwrap_arg(a) for a in args]
+    if nm == "clamp" and len(args) == 3:
+        return mk_call("min", [mk_call("max", [args[0], args[1]]), args[2]])      # x.clamp(lo, hi) == x.max(lo).min(hi) for lo <= hi
     if nm in ("gt", "ge") and len(args) == 2:
         nm, args = ("lt" if nm == "gt" else "le"), [args[1], args[0]]      # one spelling per relation
     if nm in ASSOCIATIVE:
@@ -474,7 +574,7 @@ def _local_tree_defs(prog, f, l, flds, depth, seen, inline, defs):
                     outs.append(t0)
                 continue
             args = [expr_tree(prog, f, a, depth + 1, seen, inline) for a in t["args"]]
-            outs.append(mk_call(nm, args) + _sfx(flds))
+            outs.append(call_tree(f, t, nm, args) + _sfx(flds))
             continue
         s = f.blocks[bi]["s"][si]
         if s["d"].get("p"):
@@ -743,7 +843,7 @@ def bool_paths(prog, f, limit=256):
                 ci = f.dinfo(t["res"]) if t.get("res") is not None else (f.dinfo(t["raw"]) if "raw" in t else None)
                 args = [expr_tree(prog, f, a) for a in t["args"]]
                 nm = ci["name"] if ci else "indirect"
-                val = mk_call(nm, args)
+                val = call_tree(f, t, nm, args)
         return val
 
     def walk(b, conds, blocks, seen):
@@ -858,7 +958,7 @@ def effect_paths(prog, f, limit=256, inline=0, probes=None):
                     if nm_ in A.SAME_PATH_CALLS and t["args"] and nm_ != "from_residual":
                         ret = expr_tree(prog, f, t["args"][0], inline=inline)      # ok_or / ok_or_else / into ... pass the value through
                     else:
-                        ret = mk_call(nm_, [expr_tree(prog, f, a, inline=inline) for a in t["args"]])
+                        ret = call_tree(f, t, nm_, [expr_tree(prog, f, a, inline=inline) for a in t["args"]])
             if probes:
                 for nm_, (pb, po) in probes.items():
                     if pb in blocks:
